@@ -30,6 +30,8 @@ def plan(tier, seed):
     n = 200000 if tier == "quick" else 8000000
     for i in range(NSH):
         jobs.append({"name": "rand%02d" % i, "spec": {"kind": "rand", "n": n // NSH}})
+    for i in range(2 if tier == "quick" else 8):
+        jobs.append({"name": "threads%02d" % i, "spec": {"kind": "threads", "rounds": 6 if tier == "quick" else 80}})
     return jobs
 
 
@@ -37,7 +39,7 @@ def mandatory_bins(tier):
     return [
         "empty_dict", "delete_key", "delete_value", "set_value", "merged_group", "multi_block", "block_size_115", "block_size_116", "block_size_117",
         "single_entry_116", "single_entry_117", "single_entry_118_oversize", "oversize_first", "oversize_middle", "oversize_last",
-        "unrepresentable_refused_or_encoded", "extra_blocks", "content_len_0", "content_len_254", "key_0", "key_ffff", "vid_0", "vid_fe", "all_fit", "set_config_replaces_older_configuration_with_other_tags", "description_of_an_earlier_configuration_component_edited_by_the_caller", "extra_blocks_given_as_one_shot_iterator", "extra_blocks_given_as_generator", "contents_given_as_bytearray_or_memoryview",
+        "unrepresentable_refused_or_encoded", "extra_blocks", "content_len_0", "content_len_254", "key_0", "key_ffff", "vid_0", "vid_fe", "all_fit", "set_config_replaces_older_configuration_with_other_tags", "description_of_an_earlier_configuration_component_edited_by_the_caller", "extra_blocks_given_as_one_shot_iterator", "extra_blocks_given_as_generator", "contents_given_as_bytearray_or_memoryview", "dictionaries_encoded_by_concurrent_threads",
     ]
 
 
@@ -191,6 +193,62 @@ def judge(ns, ctx, conf, extras, via):
             ctx.bin("description_of_an_earlier_configuration_component_edited_by_the_caller")
 
 
+def run_threads(ns, ctx, spec):
+    """several threads encoding DIFFERENT dictionaries at the same time (conf_dict_to_tlv / set_config on their own files),
+    interleaved at every source line of the encoder: each result must decode to its own dictionary"""
+    from ..sched import yieldrun
+
+    BF = ns.bf3file
+    rng = ctx.rng
+    # every function of the module and every method of every class defined in it (whatever helper the encoder uses)
+    codes = yieldrun.code_objects_of(BF, *[v for v in vars(BF).values() if isinstance(v, type) and v.__module__ == BF.__name__])
+    total = 0
+    for rnd in range(spec["rounds"]):
+        nthreads = (2, 3, 4)[rnd % 3]
+        confs = []
+        for _ in range(nthreads):
+            c = rand_conf(rng)
+            while not c or any(model.entry_size(v, cc) > model.MAX_BLOCK for (k, v), cc in c.items()):
+                c = rand_conf(rng)
+            confs.append(c)
+
+        def body(i):
+            def run():
+                if i % 2:
+                    f = BF.Bf3File()
+                    f.set_config(dict(confs[i]))
+                    return bytes(f.components[-1].blob)
+                blocks = BF.conf_dict_to_tlv(dict(confs[i]))
+                return b"".join(bytes((len(b),)) + bytes(b) for b in blocks) + b"\x00"
+            return run
+
+        res, y = yieldrun.run_concurrently([body(i) for i in range(nthreads)], codes, sleep=0.0001, max_yields=20000)
+        total += y
+        ctx.ev(nthreads)
+        ctx.bin("dictionaries_encoded_by_concurrent_threads")
+        ctx.mon("conf_dict_to_tlv", nthreads)
+        ctx.distinct("threads", rnd, [sorted((k, -1 if v is None else v, c) for (k, v), c in cf.items()) for cf in confs])
+        for i, r in enumerate(res):
+            rp = {"conf": [[k, v, c.hex() if c is not None else None] for (k, v), c in confs[i].items()], "extras": [], "via": "threads"}
+            if r is None:
+                ctx.note("thread_still_running_after_timeout(inconclusive)")
+                continue
+            if r[0] == "exc":
+                ctx.violation("encoder_raises_although_every_entry_fits", {"exc": r[1], "concurrent": True}, rp)
+                continue
+            try:
+                ops = []
+                for b in model.split_blocks(r[1]):
+                    ops += model.decode_block(b)[0]
+            except model.TlvError as e:
+                ctx.violation("block_does_not_decode", {"err": str(e), "concurrent": True}, rp)
+                continue
+            if ops != model.expected_ops(confs[i]):
+                ctx.violation("operation_content_differs", {"n_got": len(ops), "n_expected": len(model.expected_ops(confs[i])), "concurrent": True}, rp)
+    ctx.mon("line_yields_injected", total)
+    ctx.sample({"kind": "threads", "rounds": spec["rounds"], "line_yields": total})
+
+
 def rand_conf(rng, steer=False):
     conf = {}
     n = rng.choice((0, 1, 2, 3)) if rng.random() < 0.3 else rng.randrange(0, 41)
@@ -230,6 +288,9 @@ def rand_conf(rng, steer=False):
 def run_shard(spec, ctx):
     ns = load(plugin=False)
     rng = ctx.rng
+    if spec["kind"] == "threads":
+        run_threads(ns, ctx, spec)
+        return
     if spec["kind"] == "directed":
         judge(ns, ctx, {}, [], "set_config")
         judge(ns, ctx, {}, [], "direct")
@@ -314,4 +375,7 @@ def run_shard(spec, ctx):
 def replay(rec, ctx):
     ns = load(plugin=False)
     conf = {(k, v): (bytes.fromhex(c) if c is not None else None) for k, v, c in rec["conf"]}
+    if rec.get("via") == "threads":
+        run_threads(ns, ctx, {"rounds": 6})
+        return
     judge(ns, ctx, conf, [bytes.fromhex(e) for e in rec["extras"]], rec["via"])
